@@ -20,8 +20,25 @@
     unpadded on purpose (documented option); the in-space theorems are about
     [use_padding = True]. *)
 From JSL Require Import Base Instance Dstate Filters World Observers Graph Generator GeneratorSpec
-     GeneratorProofs EnvSpaces Feasible DispatchFun Inv Run Atomic EnvSpacesProofs.
+     GeneratorProofs EnvSpaces EnvSpacesSpec Feasible DispatchFun Inv Run Atomic EnvSpacesProofs.
 From Coq Require Import Lia Permutation.
+
+(** ** The oracles applied to the implementation's output are the specification *)
+
+(** [obs_contains] (extracted; applied to every observation the real
+    environments return, next to gymnasium's own [contains]) says exactly:
+    one flag per declared node; two rows of the declared number of edge
+    columns, every entry a node id or -1; the declared feature keys in order,
+    every matrix of its declared shape. *)
+Theorem C18_oracle_is_spec :
+  forall (A : Type) (sp : ospace) (o : obsv A), obs_contains sp o = true <-> obs_in_space sp o.
+Proof. intros A. exact (@obs_contains_spec A). Qed.
+Print Assumptions C18_oracle_is_spec.
+
+Theorem C18_action_oracle_is_spec :
+  forall (I : instance) (a : list Z), action_contains (action_nvec I) a = true <-> in_action_space I a.
+Proof. exact action_contains_spec. Qed.
+Print Assumptions C18_action_oracle_is_spec.
 
 (** ** Legal decisions belong to the declared action space *)
 
